@@ -90,6 +90,10 @@ def foreign_requests():
     return _foreign
 
 
+class Evicted(Exception):
+    pass
+
+
 def fill_half_open(w, req, n, same_spi=False):
     """n half-open responder IKE_SAs at B (distinct initiator SPIs, never completed)"""
     for i in range(n):
@@ -102,7 +106,9 @@ def fill_half_open(w, req, n, same_spi=False):
             w.net[:] = []
     half = sum(1 for s in w.endpoints['B'].controller.ike_sas if int(s.state) < int(State.ESTABLISHED))
     if half != n:
-        raise HarnessError('wanted %d half-open IKE_SAs, have %d' % (n, half))
+        # every IKE_SA_INIT request that is accepted gets an IKE_SA of its own and leaves the others alone (they have keys)
+        raise Evicted('after %d accepted IKE_SA_INIT requests%s the responder holds %d half-open IKE_SAs: accepting one '
+                      'removed another' % (n, ' (same initiator SPI and address)' if same_spi else '', half))
 
 
 def classify_reply(w):
@@ -131,6 +137,17 @@ def table(ep):
     return [(bytes(s.my_spi), bytes(s.peer_spi), s.state.name) for s in ep.controller.ike_sas]
 
 
+LOST = []      # IKE_SAs of the responder that the last probe removed or changed (whatever it was answered with)
+
+
+def lost_clause(n, lab):
+    if LOST:
+        return [('n=%d:%s' % (n, lab), [('%s:existing-ike-sa-removed' % lab.split(':')[0], 'the request (%s) removed or changed %d IKE_SA(s) '
+                                         'the responder already held: %s' % (lab, len(LOST), [(a.hex(), b.hex(), c) for a, b, c in LOST]))],
+                 'lost')]
+    return []
+
+
 def probe(w0, data, src=None):
     src = src or SRC['a']
     """inject one request at B on a copy; returns (kind, cookie, dh calls, table grew?, world)"""
@@ -139,11 +156,19 @@ def probe(w0, data, src=None):
     w.step(('inject', 'B', data, src))
     kind, cookie = classify_reply(w)
     after = table(w.endpoints['B'])
+    LOST[:] = [x for x in before if x not in after]
     return kind, cookie, w.step_dh_calls, after != before, w
 
 
 def responder_cases(same_spi=False):
     """yields (label, violations list, outcome)"""
+    try:
+        yield from _responder_cases(same_spi)
+    except Evicted as ex:
+        yield ('fill', [('fill:existing-ike-sa-removed', str(ex))], 'evicted')
+
+
+def _responder_cases(same_spi=False):
     w = base_world()
     req = real_init_request(w)
     thr = w.endpoints['B'].controller.cookie_threshold
@@ -178,6 +203,7 @@ def responder_cases(same_spi=False):
         if grew:
             v.append(('no-cookie:state-left-behind', 'IKE_SA table changed by a request without cookie'))
         yield ('n=%d:no-cookie' % n, v, kind)
+        yield from lost_clause(n, 'no-cookie')
         if kind != 'cookie':
             continue
         good = cookie
@@ -193,11 +219,19 @@ def responder_cases(same_spi=False):
                 v.append(('cookie-not-bound-to-%s' % lab, 'request with %s: reply %s, same cookie: %s' % (lab, k3, c3 == good)))
             yield ('n=%d:binding:%s' % (n, lab), v, k3)
         # --- with the exact cookie: normal processing
-        kind, _, dh, grew, _ = probe(w, variant(req, cookies=[good]))
+        kind, _, dh, grew, w_acc = probe(w, variant(req, cookies=[good]))
         v = []
         if kind != 'normal' or not grew:
             v.append(('valid-cookie-refused', 'request with the exact cookie answered with %s (table grew: %s)' % (kind, grew)))
         yield ('n=%d:valid-cookie' % n, v, kind)
+        yield from lost_clause(n, 'valid-cookie')
+        # the accepted request arrives again (the initiator's own duplicate), with and without its cookie, and a bare
+        # header with its SPI: whatever the answer, the half-open IKE_SA created for the first copy stays as it is
+        for lab, data in (('duplicate-of-accepted', variant(req, cookies=[good])), ('cookie-less-copy-of-accepted', req),
+                          ('header-only-copy-of-accepted', req[:28][:24] + struct.pack('>L', 28))):
+            k2, _, _, _, _ = probe(w_acc, data)
+            yield ('n=%d:%s' % (n, lab), [], k2)
+            yield from lost_clause(n, lab)
 
         def must_refuse(lab, data, src=None):
             kind, c, dh, grew, _ = probe(w, data, src)
@@ -208,6 +242,8 @@ def responder_cases(same_spi=False):
                 v.append(('%s:dh-computed' % lab, '%d DH computations for a request with %s' % (dh, lab)))
             if grew:
                 v.append(('%s:state-left-behind' % lab, 'IKE_SA table changed by a request with %s' % lab))
+            if LOST:
+                v.append(('%s:existing-ike-sa-removed' % lab, 'request with %s removed or changed %d IKE_SA(s)' % (lab, len(LOST))))
             return ('n=%d:%s' % (n, lab), v, kind)
         for i in range(len(good)):
             bad = good[:i] + bytes([good[i] ^ 0x01]) + good[i + 1:]
